@@ -24,9 +24,9 @@ func level(prop string) string {
 var ruleOf = map[string]string{
 	"E2-varexp": "each run = one tape: a root config whose settings are generated expression trees / primitives / containers, 0..2 Env configs, 0..3 resolvers; then 1..6 (thorough 12) reads through drawn entry points with per-read resolver outages / empty answers and drift (merge, remove, Env and store changes) between reads, each compared with the expression model. Non-trivial: >= 2 state-changing operations (setup counts as one; drift steps) or >= 1 injected fault fired (outage, empty answer, unresolvable / cyclic / operator-error read); distinct = distinct hash of the complete choice sequence",
 	"E3-unpack": "each run = one case: a generated struct type (34 field kinds), a pre-fill, a config mentioning a drawn subset of fields (optionally produced by a history), then the fault-free Unpack and EVERY fault point of the case once: each callback invocation returning an error, each consumed setting corrupted once per applicable kind. Non-trivial: every case executes >= 2 operations and its fault points; distinct = distinct hash of the choice sequence (type + pre-fill + config + history)",
-	"E4-order": "each run = one case (NewFrom / Merge on trees with nested, dotted and partly-dotted spellings; Unpack / FlattenedKeys / CompareConfigs / NewFrom on configs with references; typed Unpack fault-free or with one corrupted setting) executed under K schedules (sorted, reversed, K-2 tape-drawn) from identical initial states. Non-trivial: every case; distinct = distinct hash of the choice sequence incl. the drawn permutations",
-	"E5-conc": "each run = one tape: a shared config, 2..4 reader tasks with 1..3 reads each and options of their own, a preemption plan of <= 4 (task, function-entry index) points, and every release decision. Serialized pass inside a synctest bubble + free-running pass under -race. Non-trivial: every run (>= 2 tasks); distinct = distinct hash of the choice sequence; distinct_schedules = distinct release sequences (task, step) of the serialized pass",
-	"E6-flags": "each run = one tape: a flag (key=value or file flavour, option set, default config or not, sometimes registered in a flag.FlagSet) and a history of 1..8 (thorough 14) Set calls with malformed arguments and loader faults at any position. Non-trivial: >= 2 accepted arguments or >= 1 fault; distinct = distinct hash of the choice sequence",
+	"E4-order":  "each run = one case (NewFrom / Merge on trees with nested, dotted and partly-dotted spellings; Unpack / FlattenedKeys / CompareConfigs / NewFrom on configs with references; typed Unpack fault-free or with one corrupted setting) executed under K schedules (sorted, reversed, K-2 tape-drawn) from identical initial states. Non-trivial: every case; distinct = distinct hash of the choice sequence incl. the drawn permutations",
+	"E5-conc":   "each run = one tape: a shared config, 2..4 reader tasks with 1..3 reads each and options of their own, a preemption plan of <= 4 (task, function-entry index) points, and every release decision. Serialized pass inside a synctest bubble + free-running pass under -race. Non-trivial: every run (>= 2 tasks); distinct = distinct hash of the choice sequence; distinct_schedules = distinct release sequences (task, step) of the serialized pass",
+	"E6-flags":  "each run = one tape: a flag (key=value or file flavour, option set, default config or not, sometimes registered in a flag.FlagSet) and a history of 1..8 (thorough 14) Set calls with malformed arguments and loader faults at any position. Non-trivial: >= 2 accepted arguments or >= 1 fault; distinct = distinct hash of the choice sequence",
 	"hostile arguments (E1/E2/E3/E6 surfaces) + E5 lexer schedules": "phase 1: each run = one tape drawing a family (accessors with hostile name/index pairs inside a history, hostile keys, odd Unpack targets / Merge sources, splice soups under VarExp, value soups under every parse.Config and as flag arguments, byte soups to the three loaders); phase 2: one splice string from a grammar incl. malformed shapes evaluated under a tape-chosen lexer/parser schedule at every channel operation. Non-trivial: every run (each injects >= 1 hostile argument); distinct = distinct hash of the choice sequence",
 	"E1-world": "each run = one tape drawn from splitmix64(hash(VERIF_SEED, property, run index)); the tape draws the run's configuration vector (separator, depth/width bounds, pool size, enumeration-order policy, nil/empty values) and then a history of operations (create / merge / set / set-child / remove / child / reads / illegal addresses) over a pool of aliased configs, checked against the reference tree after every step. A run is non-trivial if it executed >= 2 state-changing operations or >= 1 injected fault fired; distinct = distinct hash of the complete choice sequence (counted exactly, union over workers)",
 }
@@ -82,26 +82,27 @@ func writeEvidence(prop, tier string, seed int64, b *build, sr *searchResult, sa
 	}
 	distinct := sr.traces
 	cov := map[string]interface{}{
-		"evaluations":             max(runs, 1),
-		"distinct_nontrivial":     distinct,
-		"nontrivial_runs":         nontrivial,
-		"rule":                    rule,
-		"samples":                 samples,
-		"exhaustive":              false,
-		"runs_per_hour":           int(float64(runs) / maxf(sr.wall, 0.001) * 3600),
-		"seeds":                   map[string]interface{}{"verif_seed": seed, "run_index_first": first, "run_index_last": last, "workers": len(sr.sums)},
-		"logical_steps":           logical,
-		"logical_steps_note":      "go-ucfg has no clock, timers, network or disk; simulated time is reported as logical steps = instrumented function entries + loop iterations executed inside the library",
-		"max_steps_one_operation": maxOp,
-		"step_budget":             300000,
-		"state_changing_ops":      stateOps,
-		"faults_fired":            faults,
-		"probes":                  probes,
-		"probes_stuck_at_zero":    stuck,
-		"distinct_states":         sr.states,
-		"distinct_schedules":      sr.scheds,
-		"distinct_measure":        "states = hash of the canonical reference state after each step; schedules = hash of the sequence of (enumeration site, size, permutation) decisions of a run (for C11 also the release sequence of tasks)",
-		"foreign_observations":    foreign,
+		"evaluations":                          max(runs, 1),
+		"distinct_nontrivial":                  distinct,
+		"nontrivial_runs":                      nontrivial,
+		"rule":                                 rule,
+		"samples":                              samples,
+		"exhaustive":                           false,
+		"runs_per_hour":                        int(float64(runs) / maxf(sr.wall, 0.001) * 3600),
+		"seeds":                                map[string]interface{}{"verif_seed": seed, "run_index_first": first, "run_index_last": last, "workers": len(sr.sums)},
+		"logical_steps":                        logical,
+		"logical_steps_note":                   "go-ucfg has no clock, timers, network or disk; simulated time is reported as logical steps = instrumented function entries + loop iterations executed inside the library",
+		"max_steps_one_operation":              maxOp,
+		"step_budget":                          300000,
+		"state_changing_ops":                   stateOps,
+		"faults_fired":                         faults,
+		"worker_deaths_outside_the_simulation": sr.notes,
+		"probes":                               probes,
+		"probes_stuck_at_zero":                 stuck,
+		"distinct_states":                      sr.states,
+		"distinct_schedules":                   sr.scheds,
+		"distinct_measure":                     "states = hash of the canonical reference state after each step; schedules = hash of the sequence of (enumeration site, size, permutation) decisions of a run (for C11 also the release sequence of tasks)",
+		"foreign_observations":                 foreign,
 		"components": map[string]interface{}{
 			"real": []string{"all of go-ucfg (root package, parse, diff, flag, cfgutil, yaml/json/hjson front-ends) compiled from /repo's working tree after the mechanical instrumentation R1-R6", "reflect, strconv and the rest of the standard library"},
 			"stub": stubsOf(prop),
